@@ -728,6 +728,13 @@ func (l *SimListener) Dial(name string) (client *SimConn) {
 	return b
 }
 
+// HasAcceptor reports whether a goroutine is parked in Accept right now.
+func (l *SimListener) HasAcceptor() bool {
+	l.n.s.Mu.Lock()
+	defer l.n.s.Mu.Unlock()
+	return l.acceptor != nil
+}
+
 func (l *SimListener) Accept() (net.Conn, error) {
 	s := l.n.s
 	for {
